@@ -602,6 +602,22 @@ func toGoHelper(env *Zlisp, name string, arg Sexp) (Sexp, error) {
 			//return &SexpStr{S: fmt.Sprintf("%#v", asHash.GoShadowStruct)}, nil
 
 			newStruct = asHash.GoShadowStruct
+			// a field the record no longer has must not keep the value
+			// of an earlier conversion
+			if va := reflect.ValueOf(newStruct); va.Kind() == reflect.Ptr && va.Elem().Kind() == reflect.Struct {
+				for _, det := range asHash.DetOrder {
+					if det.StructField.Anonymous {
+						continue
+					}
+					fld := va.Elem()
+					for _, p := range det.EmbedPath {
+						fld = fld.Field(p.ChildFieldNum)
+					}
+					if fld.CanSet() {
+						fld.Set(reflect.Zero(fld.Type()))
+					}
+				}
+			}
 		} else {
 			//vv("ToGo: tn '%s' does not have GoShadowStruct set, making a new one", tn)
 
